@@ -60,11 +60,11 @@ Proof.
   intros c n c' H. unfold elim_one in H.
   destruct (in_ios c n); [injection H as <-; left; reflexivity|].
   destruct (outs_of c n) as [|oo [|oo2 orest]]; try (injection H as <-; left; reflexivity).
-  destruct (ins_of c n) as [|oi itl]; [discriminate|].
+  destruct (ins_of c n) as [|[inl|] itl]; try (injection H as <-; left; reflexivity).
   destruct oo as [out|]; [|discriminate].
   destruct (node_remove c n) as [c1|] eqn:E1; [|discriminate].
   destruct (line_remove c1 out) as [c2|] eqn:E2; [|discriminate].
-  destruct oi as [inl|]; [|discriminate]. destruct (l_rdr (lst c out)) as [rd|]; [|discriminate].
+  destruct (l_rdr (lst c out)) as [rd|]; [|discriminate].
   injection H as <-. right. exists c1. split; auto. simpl. apply (line_remove_nodes _ _ _ E2).
 Qed.
 
@@ -194,7 +194,7 @@ Proof.
     assert (Hin : In m (map snd (forks c))).
     { apply in_map_iff. exists (name_of c m, m). split; auto. apply (cc_forks [] c HC). auto. }
     specialize (Hok m Hin). rewrite Hio, Hlen in Hok. simpl in Hok.
-    destruct (ins_of c m) as [|[l|] tl]; try discriminate. exists l, tl. auto.
+    intros l tl Hl. rewrite Hl in Hok. exact Hok.
   - apply (dict_values_nodup (forks c) (name_of c)). apply (cc_forks_nd [] c HC).
     intros s m H. apply (cc_forks [] c HC) in H. tauto.
   - split; auto. unfold s_names. rewrite A. apply map_ext. exact B.
@@ -219,4 +219,55 @@ Proof.
   split. { apply state_first_b_sound. vm_compute. reflexivity. }
   split. { unfold kept_c'. destruct (eliminate_1to1 kept_c) eqn:E; [reflexivity|vm_compute in E; discriminate]. }
   split. { vm_compute. reflexivity. } split; vm_compute; reflexivity.
+Qed.
+
+(** ** D38 (fixed): forks without driver are left alone.  Nodes [i, f, s, t, g, w, o, j]: i -> f -> g -> w -> o, the forks s (never
+    connected at its input: ins = []) and t (its input line j -> t was removed: ins = [None]) drive pins 1 and 2 of g.  s and t are
+    forks outside the interface with exactly one reader and no driver -- what substitute / resolve_tlib_cells leave behind for an
+    unconnected instance input once the clean-up has removed the other readers.  The loop removes f and w and keeps s and t; the
+    loop before the fix ([eliminate_1to1_old]: `in_line = n.ins[0]`) raised on the same circuit. *)
+Definition stub_history : list op :=
+  [AddNode "i" "input"; AddNode "f" FORK; AddNode "s" FORK; AddNode "t" FORK; AddNode "g" "NAND3"; AddNode "w" FORK;
+   AddNode "o" "output"; AddNode "j" "input";
+   AddLine 0 None 1 None; AddLine 1 None 4 (Some 0); AddLine 2 None 4 (Some 1); AddLine 7 None 3 None; AddLine 3 None 4 (Some 2);
+   AddLine 4 None 5 None; AddLine 5 None 6 None; RemoveLine 3; SetIO 0 0; SetIO 1 6].
+Definition stub_c : circ := match run_hist stub_history with Some c => c | None => empty end.
+Definition stub_c' : circ := match eliminate_1to1 stub_c with Some c => c | None => empty end.
+Definition driverless_1to1 (c : circ) (n : nat) : bool :=
+  mem n (nodes c) && is_fork (kind_of c n) && negb (in_ios c n) && Nat.eqb (List.length (outs_of c n)) 1 &&
+  match ins_of c n with Some _ :: _ => false | _ => true end.
+Lemma driverless_fork_kept :
+  run_hist stub_history = Some stub_c /\ hist_pre empty (stub_history ++ [Eliminate1to1; Eliminate1to1]) = true /\
+  CInv stub_c /\ IoLive stub_c /\ elim_ok_b stub_c = true /\
+  ins_of stub_c 2 = [] /\ ins_of stub_c 3 = [None] /\ driverless_1to1 stub_c 2 = true /\ driverless_1to1 stub_c 3 = true /\
+  eliminate_1to1 stub_c = Some stub_c' /\ CInv stub_c' /\ IoLive stub_c' /\
+  map (name_of stub_c) (nodes stub_c) = ["i"; "f"; "s"; "t"; "g"; "w"; "o"; "j"]%string /\
+  map (name_of stub_c') (nodes stub_c') = ["i"; "j"; "s"; "t"; "g"; "o"]%string /\
+  driverless_1to1 stub_c' 2 = true /\ driverless_1to1 stub_c' 3 = true /\
+  ins_of stub_c' 2 = ins_of stub_c 2 /\ outs_of stub_c' 2 = outs_of stub_c 2 /\
+  ins_of stub_c' 3 = ins_of stub_c 3 /\ outs_of stub_c' 3 = outs_of stub_c 3 /\
+  List.length (lines stub_c) = 6 /\ List.length (lines stub_c') = 4 /\ s_names stub_c' = s_names stub_c /\
+  option_map canon (eliminate_1to1 stub_c') = Some (canon stub_c') /\
+  eliminate_1to1_old stub_c = None.
+Proof.
+  assert (Hc : CInv stub_c) by (apply Proofs.CircuitBool.cinv_b_sound; vm_compute; reflexivity).
+  assert (Hl : IoLive stub_c) by (apply io_live_of_ok; vm_compute; reflexivity).
+  assert (Hok : elim_ok_b stub_c = true) by (vm_compute; reflexivity).
+  assert (He : eliminate_1to1 stub_c = Some stub_c').
+  { unfold stub_c'. destruct (eliminate_1to1 stub_c) eqn:E; [reflexivity|vm_compute in E; discriminate]. }
+  split. { unfold stub_c. destruct (run_hist stub_history) eqn:E; [reflexivity|vm_compute in E; discriminate]. }
+  split. { vm_compute. reflexivity. }
+  split; [exact Hc|]. split; [exact Hl|]. split; [exact Hok|].
+  split. { vm_compute. reflexivity. } split. { vm_compute. reflexivity. }
+  split. { vm_compute. reflexivity. } split. { vm_compute. reflexivity. }
+  split; [exact He|].
+  split. { apply Proofs.CircuitBool.cinv_b_sound. vm_compute. reflexivity. }
+  split. { apply io_live_of_ok. vm_compute. reflexivity. }
+  split. { vm_compute. reflexivity. } split. { vm_compute. reflexivity. }
+  split. { vm_compute. reflexivity. } split. { vm_compute. reflexivity. }
+  split. { vm_compute. reflexivity. } split. { vm_compute. reflexivity. }
+  split. { vm_compute. reflexivity. } split. { vm_compute. reflexivity. }
+  split. { vm_compute. reflexivity. } split. { vm_compute. reflexivity. }
+  split. { vm_compute. reflexivity. } split. { vm_compute. reflexivity. }
+  vm_compute. reflexivity.
 Qed.
